@@ -547,12 +547,20 @@ class BasicContiguousVector<cntgs::Options<Option...>, Parameter...>
             {
                 return false;
             }
-            return detail::trivial_equal(data_begin(), data_end(), other.data_begin(), other.data_end());
+            // equal bytes mean equal elements only when they are cut into fields of the same sizes
+            return equal_fixed_sizes(other, std::make_index_sequence<ListTraits::CONTIGUOUS_FIXED_SIZE_COUNT>{}) &&
+                   detail::trivial_equal(data_begin(), data_end(), other.data_begin(), other.data_end());
         }
         else
         {
             return size() == other.size() && std::equal(begin(), end(), other.begin());
         }
+    }
+
+    template <class Other, std::size_t... I>
+    constexpr bool equal_fixed_sizes([[maybe_unused]] const Other& other, std::index_sequence<I...>) const noexcept
+    {
+        return ((this->template get_fixed_size<I>() == other.template get_fixed_size<I>()) && ...);
     }
     template <class... TOption>
     constexpr auto lexicographical_compare(
